@@ -1032,7 +1032,7 @@ def features(case, model):
             if n_out == 0: f.append('empty-result')
             inv = S32 if (lu or ru) else S64
             for m in maps:
-                flat = [x[0] for x in m]
+                flat = [x[0] if len(x) == 1 else None for x in m]      # (a payload field may be called like a map field)
                 if inv in flat: f.append('map-has-sentinel')
                 for s in range(0, len(flat), mcs):
                     if flat[s:s + mcs] and all(x == inv for x in flat[s:s + mcs]):
